@@ -18,6 +18,23 @@ type ctxKeyT struct{ name string }
 
 func (k ctxKeyT) String() string { return k.name }
 
+// ctxKeyS is a context key type whose UNDERLYING kind is string and whose String() gives another name than the raw
+// value: it is a Stringer key, printed under what String() returns.
+type ctxKeyS string
+
+func (k ctxKeyS) String() string { return "named." + string(k) }
+
+// c07lazyAttr is an application-defined Attr (value receivers) that holds a function: values of this type cannot be
+// compared with ==.
+type c07lazyAttr struct {
+	key string
+	f   func() any
+}
+
+func (a c07lazyAttr) Key() string  { return a.key }
+func (a c07lazyAttr) Value() any   { return a.f() }
+func (a c07lazyAttr) SetValue(any) {}
+
 type srcKV struct {
 	key string
 	src string  // e.g. call#3
@@ -204,6 +221,13 @@ func c07main(c *Ctx) {
 				src = "own"
 			}
 			own[d] = genSrcList(r, src, n, keyspace, groups)
+			if len(own[d]) > 0 && r.P(15) {
+				// a key bound to A, then to B, then to A again (the very same value as the first time): the last one counts
+				if e := own[d][r.Intn(len(own[d]))]; !e.isG {
+					own[d] = append(own[d], srcKV{key: e.key, src: e.src + "-then-another"}, srcKV{key: e.key, src: e.src})
+					c.R.Add("own_lists_that_rebind_a_key_to_an_earlier_value", 1)
+				}
+			}
 			// the whole list built with NewAttrs("k", v, ...) - duplicates included - and bound in one call
 			if r.P(15) && len(own[d]) > 0 {
 				var pairs []any
@@ -272,8 +296,13 @@ func c07main(c *Ctx) {
 				name = fmt.Sprintf("ctx%d", i)
 			}
 			var key any = name
-			if r.Bool() {
+			switch r.Intn(5) {
+			case 0, 1:
 				key = ctxKeyT{name}
+			case 2:
+				// a Stringer key of underlying kind string: the attribute is named by String()
+				key = ctxKeyS(name)
+				name = "named." + name
 			}
 			lg.SetContextKeys(key)
 			regs = append(regs, regKey{key, name})
@@ -347,6 +376,14 @@ func c07main(c *Ctx) {
 			lg = sk
 			ctxList = nil
 			c.R.Add("records_through_a_WithSkip_child_of_the_configured_logger", 1)
+		}
+		// two application-defined attributes of a type that cannot be compared with ==, under ONE key (the later wins)
+		if r.P(8) && !wide {
+			k := c07key(r.Intn(keyspace))
+			v1, v2 := "call#lazy1", "call#lazy2"
+			args = append(args, c07lazyAttr{k, func() any { return v1 }}, c07lazyAttr{k, func() any { return v2 }})
+			call = append(call, srcKV{key: k, src: v1}, srcKV{key: k, src: v2})
+			c.R.Add("calls_with_two_uncomparable_user_attrs_under_one_key", 1)
 		}
 		// reference
 		var all []srcKV
